@@ -22,6 +22,7 @@ theorem tvf_eq (c : Cluster) (k : String) (i : Nat) :
 inductive COp where
   | g (cl sv : Nat) (k : String)
   | r (src dst : Nat) (k : String)
+  deriving DecidableEq
 
 def cstep (c : Cluster) : COp → Cluster
   | .g a b k => (gossipOp c a b k).1
@@ -205,5 +206,31 @@ theorem cstep_topd (c : Cluster) (op : COp) (k : String) (hv : op.valid c.reps.l
             have := repair_other y d c.clk (k := k) (by rw [hkd]; exact Ne.symm hk)
             rw [top_of_docsOf_eq this, htb]
         · exact ⟨i, by simp only [h1, if_false]⟩
+
+/-- run a sequence of exchange operations. -/
+def crun (c : Cluster) (ops : List COp) : Cluster := ops.foldl cstep c
+
+theorem crun_abs (k : String) (ops : List COp) : ∀ (c : Cluster), (∀ op ∈ ops, op.valid c.reps.length) →
+    tvf (crun c ops) k = (ops.map (absOp k)).foldl xstep (tvf c k) ∧
+    (∀ i, ∃ j, topd (crun c ops) k i = topd c k j) := by
+  induction ops with
+  | nil => intro c _; exact ⟨rfl, fun i => ⟨i, rfl⟩⟩
+  | cons op rest ih =>
+    intro c hv
+    have hop := hv op (by simp)
+    have h1 := cstep_topd c op k hop
+    have hrest : ∀ o ∈ rest, o.valid (cstep c op).reps.length := by
+      intro o ho; rw [cstep_length]; exact hv o (by simp [ho])
+    have h2 := ih (cstep c op) hrest
+    have e : tvf (cstep c op) k = xstep (tvf c k) (absOp k op) := by
+      funext i; exact h1.1 i
+    constructor
+    · simp only [crun, List.foldl_cons, List.map_cons]
+      rw [← e]; exact h2.1
+    · intro i
+      obtain ⟨j, hj⟩ := h2.2 i
+      obtain ⟨j', hj'⟩ := h1.2 j
+      exact ⟨j', by simp only [crun, List.foldl_cons]; rw [← hj']; exact hj⟩
+
 
 end Banyan.C18
